@@ -25,6 +25,7 @@ import PGProofs.BridgeTwoLocus
 import PGProofs.Marginal
 import PGProofs.RewardsThm
 import PGProofs.EndToEnd2
+import PGProofs.MarginalsThm
 
 set_option linter.all false
 set_option pp.fieldNotation.generalized false
@@ -77,6 +78,15 @@ theorem combined_height_locus : ∀ (n : ℕ) (s : State) (l : ℕ), Reward.eval
 /-- CAPSTONE (two loci): what moment(...) returns on the two-locus graph equals the labelled ARG combination -/
 theorem end_to_end_two_locus : type_of% @PG.EndToEnd.two_locus_moment_call_eq_labelled := @PG.EndToEnd.two_locus_moment_call_eq_labelled   -- (printed statement does not re-elaborate; see the source lemma)
 
+/-- kernel-checked: returning the joint variance on the diagonal of loci.cov is wrong (8 instead of 4) and breaks the sum -/
+theorem marg_locus_diag_defect : Marginals.covCore Marginals.Variant.locusDiagJointVar Marginals.Examples.distB Marginals.Examples.rawB Marginals.Kind.loci 0 0 = 8 ∧ Marginals.margVar Marginals.Examples.rawB Reward.totalBranchLength Marginals.Kind.loci 0 = 4 ∧ Option.map (fun M ↦ List.sum (List.map List.sum M)) (Except.toOption (Marginals.covMatrix Marginals.Variant.locusDiagJointVar Marginals.Examples.distB Marginals.Examples.rawB Marginals.Kind.loci)) = some 16 ∧ Marginals.distVar Marginals.Examples.rawB Reward.totalBranchLength = 8 := @PG.Marginals.Examples.locusDiagJointVar_violates
+
+/-- kernel-checked: corr = 1 at r = 0 is wrong for unlinked starts (cov 0) -/
+theorem marg_locus_corr_r0_defect : Except.toOption (Marginals.getCorr (Marginals.ratOps Marginals.Examples.sqrtB) Marginals.Variant.locusCorrOneAtR0 Marginals.Examples.distB Marginals.Examples.rawB Marginals.Kind.loci 0 1) = some 1 ∧ Marginals.covCore Marginals.Variant.locusCorrOneAtR0 Marginals.Examples.distB Marginals.Examples.rawB Marginals.Kind.loci 0 1 = 0 ∧ Marginals.Examples.sqrtB (Marginals.margVar Marginals.Examples.rawB Reward.totalBranchLength Marginals.Kind.loci 0) = 2 ∧ Marginals.Examples.sqrtB (Marginals.margVar Marginals.Examples.rawB Reward.totalBranchLength Marginals.Kind.loci 1) = 2 := @PG.Marginals.Examples.locusCorrOneAtR0_violates
+
+/-- two-locus code functional: locus marginals of the total branch length decompose the total -/
+theorem marg_code_loci : type_of% @PG.Marginals.code2_loci_tbl_marginals := @PG.Marginals.code2_loci_tbl_marginals   -- (printed statement does not re-elaborate; see the source lemma)
+
 end PG.C06
 
 #print axioms PG.C06.arg_eq_labelled_any_linkage
@@ -94,3 +104,6 @@ end PG.C06
 #print axioms PG.C06.combined_tbl_locus
 #print axioms PG.C06.combined_height_locus
 #print axioms PG.C06.end_to_end_two_locus
+#print axioms PG.C06.marg_locus_diag_defect
+#print axioms PG.C06.marg_locus_corr_r0_defect
+#print axioms PG.C06.marg_code_loci
